@@ -87,6 +87,80 @@ def replica_events_world(pair, r, res):
     return None
 
 
+def failed_calls_silent(pair, r, res, tier):
+    """'Refused, failed and no-op calls emit nothing': one I/O error is injected at EVERY storage operation of an
+    append (writer) and of a proof application (replica), in every phase of the flush cadence; a call that answers an
+    error must not have sent any event. Implementation only (the model has no failing storage; in the model an
+    operation's events are sent after its last storage operation: CoreFacts.append_events / apply_events)."""
+    im = pair.impl
+    found = []
+
+    def opcount(d):
+        return int(im.cmd("opcount " + d).split(" ")[1])
+
+    def scenario(setup, target, core, disk, label):
+        # dry run: how many storage operations does the target call issue, and what does it announce
+        im.cmd("reset")
+        for c in setup:
+            im.cmd(c)
+        im.cmd("events %s s1" % core)
+        a = opcount(disk)
+        ans0 = im.cmd(target)
+        b = opcount(disk)
+        ev0 = im.cmd("events %s s1" % core)
+        if not ans0.startswith("ok"):
+            return
+        for kf in range(a, b):
+            im.cmd("reset")
+            for c in setup:
+                im.cmd(c)
+            im.cmd("events %s s1" % core)
+            im.cmd("fail %s %d" % (disk, kf))
+            ans = im.cmd(target)
+            im.cmd("fail %s off" % disk)
+            ev = im.cmd("events %s s1" % core)
+            res.count("faulted-calls-with-subscriber")
+            if not ans.startswith("ok"):
+                res.count("faulted-call-failed")
+                if ev != "ok":
+                    found.append(dict(key="events:failed-call", what="%s: I/O error at storage operation %d, the call answered %s but "
+                                      "had already sent [%s]" % (label, kf - a, ans[:40], ev[3:]),
+                                      replay=dict(setup=setup, target=target[:200], fail_at=kf)))
+                    return
+            elif ev != ev0:
+                found.append(dict(key="events:faulted-ok", what="%s: call succeeded despite the fault but announced [%s] instead of [%s]" %
+                                  (label, ev[3:], ev0[3:]), replay=dict(setup=setup, target=target[:200], fail_at=kf)))
+                return
+
+    # writer: appends in every phase of the cadence (the first call on an instance and every fourth flush)
+    for prior in range(0, 5 if tier == "quick" else 9):
+        setup = ["disk D", "new W D writer", "sub W s1"] + ["append W %s" % hexb(bytes([65 + j])) for j in range(prior)]
+        scenario(setup, "append W 7a7a 79", "W", "D", "append after %d appends" % prior)
+        if found:
+            return found
+    # replica: proof applications (block + upgrade first, then blocks) in every phase
+    im.cmd("reset")
+    for c in ["disk D", "new W D writer", "append W 61 6262 63 6464 65 66 67 68"]:
+        im.cmd(c)
+    proofs = []
+    pa = im.cmd("prove W 2,0 - - 0,8")
+    proofs.append(pa[3:])
+    # later block requests need the replica's missing-node counts: replay them on a scratch replica
+    im.cmd("disk E"); im.cmd("new R E replica")
+    im.cmd("apply R " + proofs[0])
+    for i in (5, 0, 7, 3, 6):
+        n = im.cmd("missing R %d" % i).split(" ")[1]
+        pa = im.cmd("prove W %d,%s - - -" % (i, n))
+        proofs.append(pa[3:])
+        im.cmd("apply R " + pa[3:])
+    for k in range(len(proofs) if tier != "quick" else 5):
+        setup = ["disk E", "new R E replica", "sub R s1"] + ["apply R " + q for q in proofs[:k]]
+        scenario(setup, "apply R " + proofs[k], "R", "E", "proof application number %d on a replica" % k)
+        if found:
+            return found
+    return found
+
+
 def main(tier, seed):
     res = Result("C13", tier, seed)
     res.gate = coq_gate("C13.v", clean=(tier == "thorough"))
@@ -112,6 +186,8 @@ def main(tier, seed):
             res.disagreements.extend(pair.disagreements[:2]); pair.disagreements = []
             if len(res.violations) >= 4:
                 break
+        res.violations.extend(failed_calls_silent(pair, r, res, tier))
+        res.add_case(("failed-calls-silent",), True, sample="I/O error at every storage operation of appends and proof applications with a subscriber attached")
         res.extra["commands_compared"] = pair.ncmp
     finally:
         pair.close()
